@@ -443,7 +443,25 @@ func (r *renderer) expr(n *Node) {
 			r.nl = save
 			r.w(`"`)
 		default:
-			panic("heredoc rendering handled by RenderHeredoc")
+			// heredoc: <<EOT / <<-EOT, the lines, the closing marker on its own line, and the
+			// newline that must follow it
+			if n.S == "hf" {
+				r.t("<<-EOT\n")
+			} else {
+				r.t("<<EOT\n")
+			}
+			save := r.nl
+			r.nl = 0
+			for _, ln := range n.Sub {
+				r.w(strings.Repeat(" ", ln.N))
+				r.tplParts(ln.Sub)
+				r.w("\n")
+			}
+			r.nl = save
+			if n.S == "hf" {
+				r.w("  ")
+			}
+			r.w("EOT\n")
 		}
 	default:
 		panic("render: unknown node kind " + n.K)
